@@ -291,6 +291,7 @@ impl CoreInner {
 			})?;
 
 		log::debug!("Created SST table_id={}, file_size={}", table.id, table.file_size);
+		verif_yield!("flush.sst_written");
 
 		// Step 2: Write to versioned index (B+tree) with vlog-separated values
 		// Note: Replace entries are NOT cleaned up here. The HistoryIterator uses
@@ -312,6 +313,7 @@ impl CoreInner {
 			);
 		}
 
+		verif_yield!("flush.index_written");
 		// Step 3: Prepare atomic changeset
 		let mut changeset = ManifestChangeSet::default();
 		changeset.new_tables.push((0, Arc::clone(&table)));
@@ -342,6 +344,7 @@ impl CoreInner {
 			return Err(error);
 		}
 
+		verif_yield!("flush.manifest_written");
 		// Remove successfully flushed memtable from immutables tracking. The
 		// Arc<MemTable> in `memtable` (function parameter) falls out of scope at
 		// end of function — its data is now available via the SST that was just
@@ -396,6 +399,7 @@ impl CoreInner {
 				old_log_number,
 				new_log_number
 			);
+			verif_yield!("rotate.wal_rotated");
 			(old_log_number, new_log_number)
 		};
 
@@ -499,6 +503,7 @@ impl CoreInner {
 			}
 		});
 
+		verif_yield!("flush.done");
 		log::debug!(
 			"flush_oldest_immutable_to_sst: flushed table_id={}, file_size={}",
 			table.id,
